@@ -438,6 +438,9 @@ func (env *Env) binary(n EBinary) (Val, error) {
 	}
 	switch n.Op {
 	case "==", "!=":
+		if !isNilType(a.T) && !isNilType(b.T) && a.Addr == nil && b.Addr == nil && len(a.L) != len(b.L) {
+			return Val{}, fmt.Errorf("comparison of values of different shape: %s (%d leaves) and %s (%d leaves)", n.X.exprString(), len(a.L), n.Y.exprString(), len(b.L))
+		}
 		eq := env.e.valsEqual(env.st, env.reach, a, b)
 		if n.Op == "!=" {
 			eq = Not(eq)
@@ -1049,6 +1052,14 @@ func (env *Env) resolveType(x Expr) (types.Type, error) {
 	var pkg, name string
 	switch n := x.(type) {
 	case EIdent:
+		if bt := types.Universe.Lookup(n.Name); bt != nil {
+			if tn, ok := bt.(*types.TypeName); ok {
+				if ptr {
+					return types.NewPointer(tn.Type()), nil
+				}
+				return tn.Type(), nil
+			}
+		}
 		pkg, name = env.pkg, n.Name
 	case ESel:
 		if id, ok := n.X.(EIdent); ok {
